@@ -131,6 +131,15 @@ def Card.Sane : Card → Prop
 
 instance (c : Card) : Decidable c.Sane := by cases c <;> unfold Card.Sane <;> infer_instance
 
+/-- the argument lists of the value constraints (differ / disjoint) as `Handler::validValueArguments`
+    leaves them, with a destination type the constraint can compare — see `Cfg.WellFormed` -/
+def Cfg.ValueArgsOk (cfg : Cfg) : Prop :=
+  ∀ g ∈ cfg.globals,
+    (g.kind = .differ → ∃ kd : Kind, (kd = .int ∨ kd = .str) ∧
+      ∀ k ∈ g.keys, ∃ (j : Nat) (d : ArgDef), cfg.args[j]? = some d ∧ k.Sub d.key ∧ d.kind = kd) ∧
+    (g.kind = .disjoint → g.keys.length = 2 ∧
+      ∀ k ∈ g.keys, ∃ (j : Nat) (d : ArgDef), cfg.args[j]? = some d ∧ k.Sub d.key ∧ d.kind = .vecInt)
+
 /-- What the rules layer assumes about a configuration.
 
   * `disjoint` — no two arguments share a short key, a long key, or are both positional.  This is
@@ -152,12 +161,23 @@ instance (c : Card) : Decidable c.Sane := by cases c <;> unfold Card.Sane <;> in
     listed twice ("same argument key used twice in argument list") and normalises every listed key
     to the argument's full key.  Without it an all-of constraint that lists one argument under two
     spellings can never be met by a single use (`allOf_same_argument_twice` in
-    Lemmas/RulesExample.lean).  Only the completeness direction uses this clause. -/
+    Lemmas/RulesExample.lean).  Only the completeness direction uses this clause (for all-of; for
+    the value constraints also the soundness of disjoint).
+  * `valueArgs` — the argument list of a value constraint (differ / disjoint) as
+    `Handler::validValueArguments` leaves it: every key is (a spelling of) the key of a defined
+    argument — the handler pointer stored in `mArgHandlers` —, all listed arguments have the same
+    destination type, and a disjoint constraint has exactly two arguments (fewer: "need at least 2
+    arguments", a third: "can handle only two arguments").  In addition the type is one the
+    constraint can compare: int or string for differ (`TypedArg<T>::compareValue`), a vector for
+    disjoint (`hasIntersection`); with any other type of the fragment the end check throws
+    std::invalid_argument as soon as it has two values to compare, which is not a verdict about
+    the values (`differ_flags_invalid_argument` in Lemmas/RulesExample.lean). -/
 structure Cfg.WellFormed (cfg : Cfg) : Prop where
   disjoint : Disjoint cfg.table
   argKeys  : ∀ d ∈ cfg.args, ∀ c ∈ d.constraints, ∀ k ∈ c.2, ∃ j, Names cfg k j
   cardSane : ∀ d ∈ cfg.args, d.card.Sane
   globKeys : ∀ g ∈ cfg.globals, g.keys.Pairwise (fun x y => ∀ d ∈ cfg.args, ¬ (x.eq d.key = true ∧ y.eq d.key = true))
+  valueArgs : cfg.ValueArgsOk
 
 theorem table_getElem? (cfg : Cfg) (i : Nat) : cfg.table[i]? = (cfg.args[i]?).map (fun d => (d.key, d)) := by
   unfold Cfg.table; simp
@@ -312,7 +332,7 @@ theorem applyUses_uses {cfg : Cfg} : ∀ (us : List Use) (h h' : HState), applyU
 
 theorem endChecks_ok {cfg : Cfg} {h h' : HState} (e : endChecks cfg h = .ok h') :
     checkMandatoryCardinality cfg.args h.args = .ok () ∧ pendingCheckRequired h.pending = .ok () ∧
-    checkGlobals cfg.globals h.globals = .ok () ∧ h' = { h with lastArg := none } := by
+    checkGlobals cfg.args h.args cfg.globals h.globals = .ok () ∧ h' = { h with lastArg := none } := by
   unfold endChecks at e
   simp only [bind_eq_ok] at e
   obtain ⟨_, h1, _, h2, _, h3, e⟩ := e
